@@ -275,7 +275,9 @@ def oracle_zero_unitary(rng, sets, n=4):
     out = []; cnt = 0
     for sname, g in sets:
         for t in range(n):
-            a, b = rng.uniform(-7, 7, 2); th = [0.0, rng.uniform(-7, 7)][t % 2]; tt = rng.uniform(2e-7, 5e-7)
+            a, b = rng.uniform(-7, 7, 2); tt = rng.uniform(2e-7, 5e-7)
+            # "all angles": zero, a generic one, and rotations of more than one / more than three turns of either sign (the drive unitary has period 4 pi, not 2 pi)
+            th = [0.0, rng.uniform(-7, 7), rng.choice([-1, 1]) * (2 * np.pi + rng.uniform(0.2, 6.0)), rng.choice([-1, 1]) * (6 * np.pi + rng.uniform(0.2, 6.0))][t % 4]
             # the same gate-set object has just sampled the same pulses WITH noise (another qubit's calibration): zero noise still means ideal
             if t % 2:
                 g.X(a, 0.01, 5e-5, 4e-5); g.SX(a, 0.01, 5e-5, 4e-5); g.single_qubit_gate(th, a, 0.01, 5e-5, 4e-5)
